@@ -792,6 +792,10 @@ KEEP_AGENTS = [
     ('R17-6', 'DIFF', 'R_C17_6.diff', None, ALL, 'explicit temporaries + && chain -> table of index pairs with iterator all(); data carried as arrays: src/frame.rs: distances_match (the congruence guard behind is_valid_isometry / NotIsometry) no long'),
     ('R17-7', 'DIFF', 'R_C17_7.diff', None, ALL, 'equivalent library calls, temporaries removed / expressions inlined: src/frame.rs: Frame::translation builds the isometry with Translation3::from(q - p).into() instead of Isometry3::from_parts(.., Uni'),
     ('R17-8', 'DIFF', 'R_C17_8.diff', None, ALL, 'index loops -> iter_mut/zip iterators; computation moved into closures (duplicated a/b code -> one distance closure), deferred-init let + if/else -> if expression: src/kinematics_impl.rs (helpers that'),
+    ('R18-5', 'DIFF', 'R_C18_5.diff', None, ALL, 'extract helper functions; explicit element list -> std::array::from_fn: The nested fn random_angle inside Constraints::random_angles is hoisted into two private associated functions: arc_span(from, to'),
+    ('R18-6', 'DIFF', 'R_C18_6.diff', None, ALL, 'if/else expression -> guard clause with early return; mutable fix-up -> match with guard; std constant TAU for 2.0 * PI: In the nested random_angle the `from < to` case becomes an early return, the wr'),
+    ('R18-7', 'DIFF', 'R_C18_7.diff', None, ALL, 'nested fn -> closure capturing a hoisted rng; common tail hoisted out of the branches; inverted condition with swapped branches; array literal -> zip/iter_mut loop; return + to_vec -> tail expression '),
+    ('R18-8', 'DIFF', 'R_C18_8.diff', None, ALL, 'data carried differently (from/to pairs as tuples, array::map); Option combinator instead of mutable fix-up; enumerate+index -> zip; mutable temporary -> shadowed bindings; into_iter/cloned -> iter/co'),
 ]
 KEEP += KEEP_AGENTS
 
